@@ -159,42 +159,9 @@ func (a *adapter) project(fl engine.Fields, from int) {
 	fl["reqs"] = reqs
 }
 
-// deliverBlock queues one BlocksMsg and, right behind it, a marker BlocksMsg holding the genesis block (always
-// stale: the loop asks StableBlock() and moves on).  The receive loop handles blocks strictly in order, so once it
-// has asked StableBlock() for the marker it is done with the block - whatever it decided to do with it.
+// deliverBlock: see nut.deliverBlock
 func (a *adapter) deliverBlock(h int) string {
-	n := a.n
-	b := a.wd.blocks[h]
-	from := n.r.mark()
-	n.peer.push(p2p.BlocksMsg, enc(types.Blocks{node.Copy(b, nil)}))
-	n.peer.push(p2p.BlocksMsg, enc(types.Blocks{node.Copy(a.wd.blocks[0], nil)}))
-	n.r.wait(fmt.Sprintf("the receive loop to finish block %d and the marker behind it", h), func(evs []ev) bool {
-		return count(evs, from, func(e ev) bool { return e.kind == "StableBlock" && e.caller == fromRcvLoop }) >= 2
-	})
-	path, at := "stale", 0
-	n.r.mu.Lock()
-	for i := from; i < len(n.r.evs); i++ {
-		if e := n.r.evs[i]; e.caller == fromRcvLoop && e.kind == "HasBlock" && e.hash == b.ParentHash() {
-			path, at = "cache", i
-			if e.ok {
-				path = "insert"
-			}
-			break
-		}
-	}
-	n.r.mu.Unlock()
-	if path == "cache" { // the parent request is written by a goroutine started after BlockCache.Add
-		n.r.wait(fmt.Sprintf("the parent request for cached block %d", h), func(evs []ev) bool {
-			return count(evs, at, func(e ev) bool {
-				if e.kind != "write" || e.code != p2p.GetBlocksMsg {
-					return false
-				}
-				var q network.GetBlocksData
-				return (&p2p.Msg{Content: e.content}).Decode(&q) == nil && int(q.From) == h-1 && int(q.To) == h-1
-			}) >= 1
-		})
-	}
-	return path
+	return a.n.deliverBlock(a.wd.blocks[h], a.wd.blocks[0], fmt.Sprintf("block %d", h))
 }
 
 // raceInsert: block h is handed to the engine and held inside InsertBlock (the manager has already merged the early
@@ -247,11 +214,10 @@ func (a *adapter) deliverConfirm(h, d int) string {
 	return path
 }
 
-// deliverTxs queues the batch; every transaction that passes VerifyTxBody gets a goroutine that (as none of
-// the batch is on the chain) must call AddTx exactly once.
+// deliverTxs queues the batch (none of it is on the chain) and waits until the handler and every goroutine it started
+// have finished.
 func (a *adapter) deliverTxs() int {
 	n := a.n
-	from := n.r.mark()
 	valid := 0
 	now := uint64(time.Now().Unix())
 	batch := types.Transactions{}
@@ -263,37 +229,8 @@ func (a *adapter) deliverTxs() int {
 	}
 	n.peer.push(p2p.TxsMsg, enc(batch))
 	n.fence()
-	n.r.wait("the transaction goroutines to finish", func(evs []ev) bool {
-		return count(evs, from, func(e ev) bool { return e.kind == "AddTx.end" }) >= valid
-	})
+	n.waitTxHandlers("the batch")
 	return valid
-}
-
-// timerDrain waits for the manager's own queue timer: until no cached block has a known parent any more
-// and every insert it started has finished.
-func (a *adapter) timerDrain() {
-	n := a.n
-	deadline := time.Now().Add(waitLimit)
-	for {
-		n.waitSettled("timer drain")
-		s0 := n.r.mark()
-		insertable := false
-		for _, b := range n.cachedBlocks() {
-			if n.bc.HasBlock(b.ParentHash()) {
-				insertable = true
-			}
-		}
-		n.r.mu.Lock()
-		quiet := len(n.r.evs) == s0 && settledIn(n.r.evs)
-		n.r.mu.Unlock()
-		if !insertable && quiet {
-			return
-		}
-		if time.Now().After(deadline) {
-			engine.Failf("sync harness: the queue timer did not drain the insertable cached blocks within %v", waitLimit)
-		}
-		time.Sleep(2 * time.Millisecond)
-	}
 }
 
 func (a *adapter) Apply(s engine.Step) (engine.Fields, error) {
@@ -320,7 +257,7 @@ func (a *adapter) Apply(s engine.Step) (engine.Fields, error) {
 	case "Duplicate":
 		// the network duplicates a message that is still in flight: nothing reaches the node yet
 	case "TimerDrain":
-		a.timerDrain()
+		n.timerDrain()
 	default:
 		return nil, fmt.Errorf("unknown action %s", s.Act.Name)
 	}
